@@ -365,6 +365,8 @@ def run(chk, prog, tier):
     estimator_twins(chk, prog)
     from props.c18 import metric_twins
     metric_twins(chk, prog)
+    from props.c18 import chordal_twin
+    chordal_twin(chk, prog, rule="TWIN.metric")
     flow_rule(chk, prog)
     dispatch_rule(chk, prog)
     chk.require_count("TWIN.metric", 5)
